@@ -14,11 +14,6 @@ LastSlashA(p) == LastIndexOf(p, SLASH)
 BaseName(p) == SubSeq(p, LastSlashA(p) + 1, Len(p))
 DirName(p) == IF LastSlashA(p) = 0 THEN <<>> ELSE SubSeq(p, 1, LastSlashA(p) - 1)     \* <<>> = find's own working directory
 
-\* the name -name looks at: the last component, trailing slashes of a starting point ignored ("d/" is "d"; "/" is "/")
-RECURSIVE StripSlashes(_)
-StripSlashes(p) == IF Len(p) > 1 /\ p[Len(p)] = SLASH THEN StripSlashes(SubSeq(p, 1, Len(p) - 1)) ELSE p
-NameOf(p) == IF StripSlashes(p) = <<SLASH>> THEN <<SLASH>> ELSE BaseName(StripSlashes(p))
-
 PreHolds(tree, e, pre) ==
   IF pre.p = "none" THEN TRUE
   ELSE IF pre.p = "name" THEN GlobMatch(pre.pat, Utf8Decode(NameOf(e.path)), FALSE)     \* patterns and names are compared as characters
